@@ -30,11 +30,11 @@ Last == Trace[l]
 
 Blank == ph = <<>>
 TInit == /\ l \in {k - 1 : k \in {j \in 1..Len(Trace) : Trace[j].ev = "Reset"}}
-         /\ ph = <<>> /\ cur = <<>> /\ rep = <<>> /\ shots = <<>> /\ myid = <<>> /\ ctr = <<>> /\ ids = <<>>
+         /\ ph = <<>> /\ cur = <<>> /\ rep = <<>> /\ shots = <<>> /\ myid = <<>> /\ ctr = <<>> /\ ids = <<>> /\ cancelled = <<>>
 
 Step == /\ l < Len(Trace)
         /\ l' = l + 1
-        /\ UNCHANGED <<ctr, ids>>            \* id injectivity is decided on the whole run at RunEnd (TRunIds)
+        /\ UNCHANGED <<ctr, ids, cancelled>>            \* id injectivity is decided on the whole run at RunEnd (TRunIds)
         /\ CASE E.ev = "Reset" ->
                   LET I == Rng(E.insts)
                   IN  /\ Blank               \* otherwise this chunk ends here; the next one starts from its own init state
@@ -66,7 +66,8 @@ TNet   == AtEnd => NetOK(cur[Li], rep[Li])
 TTag   == AtEnd => TagOK(cur[Li], rep[Li])
 \* scenario shots: the target saw requests of exactly the steps that were executed up to sending - none of a step
 \* after the failed one, none of a step whose preprocessor / template failed (End carries the labels seen)
-TSent  == (AtEnd /\ cur[Li].kind \in {"httpscn", "grpcscn"}) => Rng(Last.steps) = SentSteps(cur[Li])
+TSent  == /\ (AtEnd /\ cur[Li].kind \in {"httpscn", "grpcscn"}) => Rng(Last.steps) = SentSteps(cur[Li])
+          /\ (AtEnd /\ IsCancel(cur[Li])) => CancelSentOK(cur[Li], Len(rep[Li]), Rng(Last.steps))
 \* HTTP ammo attaches its id to its sample
 TSampleId == AtEnd => (cur[Li].kind \in {"http", "tag"} => \A k \in DOMAIN rep[Li] : rep[Li][k].id = myid[Li] /\ myid[Li] > 0)
 \* ids are injective within a run: the ids of all acquisitions between RunBegin and RunEnd are pairwise distinct
